@@ -12,6 +12,7 @@ R4 reader block walk: when a block is exhausted next advances the index iterator
 R5 mtbl_dump filter truth table.
 R6 emptiness witness: the quantity block_builder_empty tests is emptied by reset and grows by a
    provably positive amount on every path of block_builder_add (else a block is silently skipped).
+D  rests on: C20 (every byte the writer produces must reach the file whatever write(2) does); C16 (lengths and offsets in the file are written and read with these codecs) - re-run here as <id>.D.<rule>.
 """
 import re
 from .common import *
@@ -249,6 +250,10 @@ def run(ctx, res):
     # ---- R6 emptiness witness ---------------------------------------------------------------
     _emptiness_witness(ctx, res)
 
+
+    # ---- properties this one rests on (re-run here, labelled <this>.D.<rule>) ------------------
+    depends(ctx, res, 'C20', None, 'every byte the writer produces must reach the file whatever write(2) does')
+    depends(ctx, res, 'C16', None, 'lengths and offsets in the file are written and read with these codecs')
 
 GROW = {"ubuf_advance": 1, "ubuf_append": 2, "ubuf_add": None}
 SHRINK = ("ubuf_reset", "ubuf_clip", "ubuf_detach", "ubuf_destroy")
